@@ -24,6 +24,7 @@ ASSUMPTIONS = [
     'Traits::kMaxVectorSize in max_size() and non-default SizeTraits do not compile on the current tree (reported; not exercised)',
 ]
 
+PACK = os.environ.get('C32_PACK') is not None      # hexadecimal packing of long lists: measured slower to parse than plain lists
 KEY_ERASE_LIFE = 'erase-leaves-tail-undestroyed'
 KEY_ERASE_RET = 'erase-returns-new-end'
 KEY_INSERT = 'insert-single-constructs-over-live'
@@ -33,7 +34,14 @@ CK = {'copy': 'KCopy', 'move': 'KMove', 'value': 'KValue'}
 
 
 # ------------------------------------------------------------------------------------------------ operations
+def pack(xs):
+    return '0x%x' % sum(x << (20 * i) for i, x in enumerate(xs))
+
+
 def zl(xs):
+    """a list of Z; long lists of small non-negative numbers as one base-2^20 literal (C32Check.unpack)"""
+    if PACK and len(xs) > 3 and all(0 <= x < (1 << 20) for x in xs):
+        return '(unpack %d %s)' % (len(xs), pack(xs))
     return dv.coq_list([dv.zlit(x) for x in xs])
 
 
@@ -299,6 +307,13 @@ def parse_line(line):
 def case_coq(ts, ops, p):
     steps = []
     for s in p['steps']:
+        small = PACK and all(0 <= x < (1 << 20) for x in s['self'] + s['other'] + s['led']) and len(s['led']) == 14
+        if small:
+            steps.append('mkObsP %d %s %s %d %s %s %s %s %s %s %s %s' % (len(s['self']), pack(s['self']), 'true' if s['two'] else 'false',
+                                                                       len(s['other']), pack(s['other']), dv.zlit(s['ret']), dv.zlit(s['stdret']),
+                                                                       dv.zlit(s['stdok']), dv.zlit(s['cap']), dv.zlit(s['ss']), dv.zlit(s['so']),
+                                                                       pack(s['led'])))
+            continue
         steps.append('mkObs %s %s %s %s %s %s %s %s %s %s' % (zl(s['self']), 'true' if s['two'] else 'false', zl(s['other']), dv.zlit(s['ret']),
                                                             dv.zlit(s['stdret']), dv.zlit(s['stdok']), dv.zlit(s['cap']), dv.zlit(s['ss']),
                                                             dv.zlit(s['so']), zl(s['led'])))
@@ -358,7 +373,7 @@ def run(ctx):
     exe = dv.build_harness('h_cvec', ['h_cvec.cpp'], need_lib=False, extra_flags=('-Wl,--wrap=free', '-Wl,--wrap=malloc'))
     ctx.phase('build')
     r = ctx.rng
-    ncase = 260 if ctx.quick else 6000
+    ncase = 140 if ctx.quick else 6000
     cases = [(nm, ts, ops) for nm, ts, ops in witnesses()]
     nwit = len(cases)
     k = 0
@@ -450,5 +465,7 @@ def run(ctx):
     ctx.cov['sequence_length_histogram'] = lens
     for nm, ts, ops, p, ln in kept[:2] + kept[nwit:nwit + 3]:
         ctx.sample({'case': ln[:300], 'final_ledger': p['final']})
-    api_probes(ctx)
     ctx.phase('correspond')
+    if not ctx.quick:
+        api_probes(ctx)
+        ctx.phase('api_probes')
